@@ -10,6 +10,31 @@ Local Open Scope Z_scope.
 (* ------------------------------------------------------------------------------------------ *)
 (* imb_set_errno / imb_get_errno                                                               *)
 
+(* the statement-by-statement translation of the two C functions (Gen/GenStrerror.v, regenerated on every run) computes
+   what the hand-written model computes, for every argument; the tactic only splits on the tests that occur, so any
+   re-arrangement of the C code with the same meaning still goes through *)
+Ltac split_tests :=
+  repeat match goal with
+         | |- context [Z.eqb ?x ?y] => destruct (Z.eqb_spec x y)
+         | |- context [Z.ltb ?x ?y] => destruct (Z.ltb_spec x y)
+         | |- context [Z.leb ?x ?y] => destruct (Z.leb_spec x y)
+         | |- context [Z.gtb ?x ?y] => rewrite (Z.gtb_ltb x y)
+         | |- context [Z.geb ?x ?y] => rewrite (Z.geb_leb x y)
+         end.
+
+Lemma src_get_errno_is_model b m : src_get_errno b (e_field m) (e_glob m) = imb_get_errno b m.
+Proof.
+  unfold src_get_errno, imb_get_errno. destruct m as [f g]; cbn [e_field e_glob].
+  destruct b; split_tests; cbn [andb orb negb]; try reflexivity; try congruence; lia.
+Qed.
+
+Lemma src_set_errno_is_model b e m :
+  src_set_errno b e (e_field m) (e_glob m) = (e_field (imb_set_errno b e m), e_glob (imb_set_errno b e m)).
+Proof.
+  unfold src_set_errno, imb_set_errno. destruct m as [f g]; cbn [e_field e_glob].
+  destruct b; split_tests; cbn [andb orb negb]; try reflexivity; try (f_equal; congruence); f_equal; lia.
+Qed.
+
 Lemma set_errno_glob b e m : e_glob (imb_set_errno b e m) = e.
 Proof. unfold imb_set_errno. cbn. destruct (e_glob m =? e) eqn:E; [apply Z.eqb_eq in E; exact E|reflexivity]. Qed.
 
